@@ -313,8 +313,29 @@ def track_unit():
         Inst(f'{T}.__init__', 'init', [('self', 'None'), ('geoshapes', 'List GV.Coll.Shape')], 'Except GV.Coll'),
         Inst(f'{T}.__getitem__', 'getitem', [('self', 'GV.Coll'), ('val', 'Slice')], 'Except GV.Coll'),
         Inst(f'{T}.has_duplicate_timestamps', 'hasDup', [('self', 'GV.Coll')], 'Bool'),
+        # the rest of the class (round 2): views, pairwise differences, copy, convolution, time-of-day and speed filters
+        Inst(f'{T}.copy', 'copy', [('self', 'GV.Coll')], 'Except GV.Coll'),
+        Inst(f'{T}.first', 'first', [('self', 'GV.Coll')], 'Except GV.Coll.Shape'),
+        Inst(f'{T}.last', 'last', [('self', 'GV.Coll')], 'Except GV.Coll.Shape'),
+        Inst(f'{T}.start', 'startT', [('self', 'GV.Coll')], 'Except Dt'),
+        Inst(f'{T}.end', 'endT', [('self', 'GV.Coll')], 'Except Dt'),
+        Inst(f'{T}.time_start_diffs', 'timeStartDiffs', [('self', 'GV.Coll')], 'Except List Td'),
+        Inst(f'{T}.centroid_distances', 'centroidDistances', [('self', 'GV.Coll')], 'Except List R'),
+        Inst(f'{T}.convolve_duplicate_timestamps', 'convolve', [('self', 'GV.Coll')], 'Except GV.Coll'),
+        Inst(f'{T}.filter_by_time', 'filterByTime', [('self', 'GV.Coll'), ('start_time', 'Int'), ('end_time', 'Int')],
+             'Except GV.Coll', doc='times of day as microseconds since midnight'),
+        Inst(f'{T}.filter_impossible_journeys', 'journeys', [('self', 'GV.Coll'), ('max_speed', 'R')], 'Except GV.Coll'),
+        Inst(f'{T}.__eq__', 'eqTrack', [('self', 'GV.Coll'), ('other', 'TrackA')], 'Bool'),
+        Inst(f'{T}.__eq__', 'eqOther', [('self', 'GV.Coll'), ('other', 'FCA')], 'Bool', doc='an operand that is not a Track'),
     ]
+    py2lean.LEAN_TYPE.setdefault('FCA', 'GV.Coll')
+    py2lean.LEAN_TYPE.setdefault('TrackA', 'GV.Coll')
     py2lean.LEAN_TYPE.setdefault('Slice', 'Unit')
+    py2lean.LEAN_TYPE.setdefault('Str', 'String')
+    py2lean.LEAN_TYPE.setdefault('PVal', 'GV.Coll.PVal')
+    py2lean.LEAN_TYPE.setdefault('Props', 'List (String × GV.Coll.PVal)')
+    py2lean.LEAN_TYPE.setdefault('Cen', 'GV.Coll.Shape')          # a centroid is known by the shape it belongs to
+    py2lean.LEAN_TYPE.setdefault('CoordV', 'Rat × Rat')
 
     def zulu(tr, args):
         if args[-1].typ != 'Dt':
@@ -329,7 +350,63 @@ def track_unit():
         return v
 
     def local_type(qual, name):
-        return {('Track.has_duplicate_timestamps', '_ts'): 'Set Opt TI'}.get((qual, name))
+        return {('Track.has_duplicate_timestamps', '_ts'): 'Set Opt TI',
+                ('Track.convolve_duplicate_timestamps', '_timestamp_grouping'): 'DDL (Opt TI) GV.Coll.Shape',
+                ('Track.convolve_duplicate_timestamps', 'new_pings'): 'List GV.Coll.Shape'}.get((qual, name))
+
+    def haversine(tr, args):
+        # the distance of two centroids is the parameter `dist` (of the two shapes), about which nothing is assumed
+        if [x.typ for x in args] != ['Cen', 'Cen']:
+            raise Unsupported('haversine_distance_meters(' + ', '.join(x.typ for x in args) + ')')
+        return Val(f'(dist {py2lean._paren(args[0].text)} {py2lean._paren(args[1].text)})', 'R')
+
+    def np_array(tr, args):
+        if len(args) != 1 or not args[0].typ.startswith('List '):
+            raise Unsupported('np.array(' + ', '.join(x.typ for x in args) + ')')
+        return args[0]
+
+    def np_isnan(tr, args):
+        if [x.typ for x in args] != ['R']:
+            raise Unsupported('np.isnan(' + ', '.join(x.typ for x in args) + ')')
+        return Val('false', 'Bool')                   # an exact rational is a number
+
+    def coordinate(tr, args):
+        # `Coordinate(lon, lat)`: the pair (normalisation is C08's subject; a mean of in-range values is in range)
+        if [x.typ for x in args] != ['R', 'R']:
+            raise Unsupported('Coordinate(' + ', '.join(x.typ for x in args) + ')')
+        return Val(f'({args[0].text}, {args[1].text})', 'CoordV')
+
+    def geopoint(tr, args):
+        # `GeoPoint(coord, dt, properties=p)`: a new shape (identity / equality class -1 as in the model)
+        props = getattr(tr, 'kw_props', None)
+        tr.kw_props = None
+        if [x.typ for x in args] != ['CoordV', 'Opt TI'] or props is None or props.typ != 'Props':
+            raise Unsupported('GeoPoint(' + ', '.join(x.typ for x in args) + ', properties=…)')
+        return Val(f'({{ id := -1, eqc := -1, dt := {args[1].text}, props := {props.text}, lon := {args[0].text}.1, '
+                   f'lat := {args[0].text}.2 }} : GV.Coll.Shape)', 'GV.Coll.Shape')
+
+    def keywords(tr, e):
+        name = getattr(e.func, 'id', None)
+        if name == 'sorted':
+            return True
+        if name == 'GeoPoint' and [k.arg for k in e.keywords] == ['properties']:
+            tr.kw_props = tr.expr(e.keywords[0].value)
+            return True
+        return False
+
+    def isinstance_hook(typ):
+        return {'GV.Coll': {'CollectionBase', 'Track'}, 'TrackA': {'CollectionBase', 'Track'},
+                'FCA': {'CollectionBase', 'FeatureCollection'}}.get(typ)
+
+    def eq_hook(tr, x, y):
+        # `xs == ys` on lists of shapes: same length and, pairwise, `x is y or x == y`
+        if x.typ == y.typ == 'List GV.Coll.Shape':
+            return Val(f'(GV.Py.listEq GV.Coll.sameOrEq {x.text} {y.text})', 'Bool')
+        return None
+
+    def expr_stmt(tr, e):
+        import ast as _ast
+        return isinstance(e, _ast.Call) and isinstance(e.func, _ast.Name) and e.func.id == 'warn_once'      # a warning
 
     def sorted_hook(tr, e):
         # `sorted(xs, key=lambda x: x.start)`: Python's sort is stable, so is the model's merge sort by start
@@ -355,15 +432,24 @@ def track_unit():
     attr = {('GV.Coll', 'geoshapes'): ('{}.shapes', 'List GV.Coll.Shape'),
             ('GV.Coll.Shape', 'dt'): ('{}.dt', 'Opt TI'), ('GV.Coll.Shape', 'start'): ('{}.startD', 'Dt'),
             ('GV.Coll.Shape', 'end'): ('{}.endD', 'Dt'),
-            ('Slice', 'start'): ('a', 'Opt Dt'), ('Slice', 'stop'): ('b', 'Opt Dt')}
-    return Unit('SrcTrack', src, 'GV.Src.Track', ['GeoVerif.Model.Track', 'GeoVerif.Model.PyPrelude'], insts,
-                {'GV.Coll': T}, attr_types=attr,
+            ('Slice', 'start'): ('a', 'Opt Dt'), ('Slice', 'stop'): ('b', 'Opt Dt'),
+            ('GV.Coll.Shape', 'centroid'): ('{}', 'Cen'), ('GV.Coll.Shape', '_properties'): ('{}.props', 'Props'),
+            ('TrackA', 'geoshapes'): ('{}.shapes', 'List GV.Coll.Shape'), ('FCA', 'geoshapes'): ('{}.shapes', 'List GV.Coll.Shape')}
+    abstract = {
+        ('Td', 'total_seconds', ()): ('GV.Py.totalSeconds {0}', 'R'),
+        ('Dt', 'time', ()): ('GV.Coll.Track.tod {0}', 'Int'),            # time of day of a UTC instant
+        ('Cen', 'to_float', ()): ('({0}.lon, {0}.lat)', 'Prod R R'),
+        ('Props', 'items', ()): ('{0}', 'List Prod Str PVal'),
+    }
+    return Unit('SrcTrack', src, 'GV.Src.Track', ['GeoVerif.Model.Track', 'GeoVerif.Model.PyPrelude', 'GeoVerif.Model.PyColl'], insts,
+                {'GV.Coll': T}, attr_types=attr, abstract=abstract,
                 pins={k: PINS[k] for k in ('utils/functions.py::default_to_zulu', 'collections.py::CollectionBase.__init__')},
-                intrinsics={'default_to_zulu': zulu, 'Track': track_ctor},
-                hooks={'isinstance': lambda typ: None, 'always_truthy': ('TI', 'Dt'), 'local_type': local_type,
+                intrinsics={'default_to_zulu': zulu, 'Track': track_ctor, 'haversine_distance_meters': haversine,
+                            'np.array': np_array, 'np.isnan': np_isnan, 'Coordinate': coordinate, 'GeoPoint': geopoint},
+                hooks={'isinstance': isinstance_hook, 'always_truthy': ('TI', 'Dt'), 'local_type': local_type,
                        'sorted': sorted_hook, 'super_init': super_init, 'init': init_hook,
-                       'keywords': lambda tr, e: getattr(e.func, 'id', None) == 'sorted'},
-                ctx_params=[('a', 'Option Int'), ('b', 'Option Int')])
+                       'keywords': keywords, 'expr_stmt': expr_stmt, 'eq': eq_hook},
+                ctx_params=[('a', 'Option Int'), ('b', 'Option Int'), ('dist', 'GV.Coll.Shape → GV.Coll.Shape → Rat')])
 
 
 # ----------------------------------------------------------------------------------------------------------
